@@ -353,6 +353,35 @@ def r9(ctx):
     import c13
     c13.r1(ctx)
 
+def r10(ctx):
+    """'a repeated unsolicited fragment is confirmed but not delivered again': last_unsol_frag is written in
+    handle_unsolicited_response only (C15.R4 guards that site) - in particular the restart handling does not clear it."""
+    prog = ctx.prog
+    writers = set()
+    for bd in prog.bodies_matching(r"^dnp3::master::"):
+        if "::test" in bd.path:
+            continue
+        for b, si, st in bd.assigns():
+            if st.dest.proj and st.dest.proj[-1] == ".last_unsol_frag":
+                writers.add(short(bd.path))
+        for c in bd.calls():
+            e_ = c.term.args[0] if c.term.args else None
+            if e_ is not None and not e_.is_const() and ".last_unsol_frag" in e_.place.proj and re.search(r"Option<.*>::(replace|take|insert)$|Option::(replace|take|insert)$", c.term.callee or ""):
+                writers.add(short(bd.path))
+        sym = ctx.sym(bd)
+        for c in call_sites(bd, r"Option<.*>::(replace|take|insert)$|Option::(replace|take|insert)$"):
+            if mentions_field(sym.call_expr(c.term)[2][0], "last_unsol_frag"):
+                writers.add(short(bd.path))
+    allowed = {"Association::handle_unsolicited_response::{closure#0}", "Association::new", "Association::reset"}
+    extra = sorted(w for w in writers if w not in allowed and "handle_unsolicited_response" not in w)
+    ctx.check(not extra, "last_unsol_frag:writers", "last_unsol_frag is written in %s only" % sorted(writers), "", bad_detail="last_unsol_frag is also written in %s: a repeat of an accepted unsolicited fragment can be taken for a new one" % extra)
+    import c13
+    c13.r1(ctx)
+    hb = prog.body("app::header::Iin::has_bad_request_error")
+    got = {c.term.callee.split("::")[-1] for c in hb.calls() if (c.term.callee or "").startswith("dnp3::app::header::Iin2::get_")}
+    want = {"get_no_func_code_support", "get_object_unknown", "get_parameter_error"}
+    ctx.check(want <= got, "has_bad_request_error:all-three", "has_bad_request_error consults %s" % sorted(got), hb.where(line=hb.line), bad_detail="has_bad_request_error consults only %s: a response rejected with the missing bit completes the request successfully" % sorted(got))
+
 RULES = [
     ("C15.R1", "T2", "non-READ acceptance: every conjunct dominates Ok(Some(response))", r1),
     ("C15.R2", "T2", "READ acceptance: correlation, FIR/FIN/CON shape, IIN2, parsed objects", r2),
@@ -363,4 +392,5 @@ RULES = [
     ("C15.R7", "T4", "malformed responses fail the task", r7),
     ("C15.R8", "T8", "source / destination / response plumbing between the transport reader and the validators", r8),
     ("C15.R9", "T11/T4", "IIN2 rejections are recognised (bit positions and getters, shared with C13.R1)", r9),
+    ("C15.R10", "T5/T2", "the record of the last unsolicited fragment is touched only where a fragment is accepted (restart handling leaves it alone; shared with C17.R2)", r10),
 ]
